@@ -377,40 +377,61 @@ gen_case(vf_rng *r, long long seed, long idx, int *kind_out, side *C, side *S)
 	C->has_sni = 1; strcpy(C->sni, "localhost");
 	if (kind == K_ALPN || vf_below(r, 100) < 35) random_sni(r, C);
 
-	/* client authentication */
-	if (kind == K_FLAGS ? vf_below(r, 2) : vf_below(r, 100) < 15) S->creq = 1;
+	/* client authentication: the subsets kind asks for it in half of its cases, mostly from a client that has a certificate */
+	if (kind == K_FLAGS ? vf_below(r, 2) : vf_below(r, 100) < (unsigned)(kind == K_SUBSETS ? 50 : 15)) S->creq = 1;
 	if (kind == K_FLAGS || S->creq || vf_below(r, 100) < 20) C->cert = (int)vf_below(r, 3);
 	if (S->creq && C->cert == 0 && kind != K_FLAGS && vf_below(r, 2)) C->cert = 1 + (int)vf_below(r, 2);
+	if (S->creq && C->cert == 0 && kind == K_SUBSETS && vf_below(r, 3)) C->cert = 1 + (int)vf_below(r, 2);
+	/* an EC client certificate (P-256) against a P-256 server key: static ECDH suites first in a third of the cases,
+	   so that full static ECDH gets its share next to ECDSA */
+	if (S->creq && C->cert == 2 && (S->key == 1 || S->key == 2) && kind != K_SINGLE && kind != K_PAIR && vf_below(r, 3) == 0) {
+		size_t i, j;
+		for (i = 0, j = 0; i < C->nsuites; i ++) {
+			const tp_suite_info *si = tp_suite_find(C->suites[i]);
+			if (si != NULL && tp_suite_fits_key(si, key_to_kind(S->key)) && (si->kx == TP_KX_ECDH_RSA || si->kx == TP_KX_ECDH_ECDSA)) {
+				uint16_t t = C->suites[i];
+				memmove(C->suites + j + 1, C->suites + j, (i - j) * sizeof C->suites[0]);
+				C->suites[j ++] = t;
+			}
+		}
+		if (j > 0 && vf_below(r, 2)) S->flags &= ~(uint32_t)BR_OPT_ENFORCE_SERVER_PREFERENCES;
+	}
 
-	/* hash and curve subsets */
+	/* hash and curve subsets (with and without client authentication: the reference models what the hash functions and
+	   curves of both sides mean for CertificateRequest, CertificateVerify and static ECDH) */
 	C->hashes = S->hashes = HASHES_ALL;
 	C->curves = S->curves = CURVES_ALL;
-	if (!S->creq) {
-		if (kind == K_SUBSETS) {
-			long q3 = q / 3;
-			switch (q % 3) {
-			case 0: apply_hashes(C, (unsigned)(q3 % 64) << 1); if (vf_below(r, 4) == 0) apply_hashes(S, vf_below(r, 64) << 1); break;
-			case 1: apply_hashes(S, (unsigned)(q3 % 64) << 1); if (vf_below(r, 4) == 0) apply_hashes(C, vf_below(r, 64) << 1); break;
-			default:
-				C->curves = curves_from_index(1 + (int)(q3 % 15));
-				S->curves = curves_from_index(1 + (int)((q3 / 15) % 15));
-				break;
-			}
-		} else if (kind == K_SINGLE || kind == K_PAIR) {
-			/* SHA-224 / SHA-512 are never needed by a suite: vary them freely */
-			if (vf_below(r, 100) < 30) C->hashes &= ~(vf_below(r, 2) ? 0x08u : 0u) & ~(vf_below(r, 2) ? 0x40u : 0u);
-			if (vf_below(r, 100) < 30) S->hashes &= ~(vf_below(r, 2) ? 0x08u : 0u) & ~(vf_below(r, 2) ? 0x40u : 0u);
-			if (vf_below(r, 100) < 25) C->curves = random_curves(r);
-			if (vf_below(r, 100) < 25) S->curves = random_curves(r);
-		} else if (kind != K_VERSIONS) {
-			if (vf_below(r, 100) < 20) apply_hashes(C, vf_below(r, 64) << 1);
-			if (vf_below(r, 100) < 20) apply_hashes(S, vf_below(r, 64) << 1);
-			if (vf_below(r, 100) < 25) C->curves = random_curves(r);
-			if (vf_below(r, 100) < 25) S->curves = random_curves(r);
-		} else {
-			if (vf_below(r, 100) < 20) C->curves = random_curves(r);
-			if (vf_below(r, 100) < 20) S->curves = random_curves(r);
+	if (kind == K_SUBSETS) {
+		long q3 = q / 3;
+		switch (q % 3) {
+		case 0: apply_hashes(C, (unsigned)(q3 % 64) << 1); if (vf_below(r, 4) == 0) apply_hashes(S, vf_below(r, 64) << 1); break;
+		case 1: apply_hashes(S, (unsigned)(q3 % 64) << 1); if (vf_below(r, 4) == 0) apply_hashes(C, vf_below(r, 64) << 1); break;
+		default:
+			C->curves = curves_from_index(1 + (int)(q3 % 15));
+			S->curves = curves_from_index(1 + (int)((q3 / 15) % 15));
+			break;
 		}
+		/* a certificate holder whose signature hash is not simply SHA-256: take SHA-256 (and sometimes more) away from one side
+		   where the suites allow it */
+		if (S->creq && C->cert != 0 && q % 3 != 2 && vf_below(r, 3) == 0) {
+			side *sd = vf_below(r, 2) ? C : S;
+			unsigned drop = 0x10u | (vf_below(r, 2) ? 0x20u : 0u) | (vf_below(r, 3) == 0 ? 0x40u : 0u);
+			if ((sd->hashes & ~drop & 0x30u) != 0) apply_hashes(sd, sd->hashes & ~drop);
+		}
+	} else if (kind == K_SINGLE || kind == K_PAIR) {
+		/* SHA-224 / SHA-512 are never needed by a suite: vary them freely */
+		if (vf_below(r, 100) < 30) C->hashes &= ~(vf_below(r, 2) ? 0x08u : 0u) & ~(vf_below(r, 2) ? 0x40u : 0u);
+		if (vf_below(r, 100) < 30) S->hashes &= ~(vf_below(r, 2) ? 0x08u : 0u) & ~(vf_below(r, 2) ? 0x40u : 0u);
+		if (vf_below(r, 100) < 25) C->curves = random_curves(r);
+		if (vf_below(r, 100) < 25) S->curves = random_curves(r);
+	} else if (kind != K_VERSIONS) {
+		if (vf_below(r, 100) < 20) apply_hashes(C, vf_below(r, 64) << 1);
+		if (vf_below(r, 100) < 20) apply_hashes(S, vf_below(r, 64) << 1);
+		if (vf_below(r, 100) < 25) C->curves = random_curves(r);
+		if (vf_below(r, 100) < 25) S->curves = random_curves(r);
+	} else {
+		if (vf_below(r, 100) < 20) C->curves = random_curves(r);
+		if (vf_below(r, 100) < 20) S->curves = random_curves(r);
 	}
 
 	/* a client that cannot handle the curve of the server's own key is the rarer case */
@@ -475,7 +496,19 @@ static struct {
 	int have_ske; unsigned ske_curve; int ske_hash, ske_sig;
 	unsigned sh_version;
 	int n_arec; unsigned arec[8][2];      /* alert records: direction, record version */
+	/* client authentication: bodies of CertificateRequest, the client's Certificate and CertificateVerify; length of ClientKeyExchange */
+	int have_cr, have_cc, have_cv; long cke_len;
+	unsigned char cr[2048], cc[6144], cv[768]; size_t cr_len, cc_len, cv_len;
+	int trunc;                            /* a body did not fit: the checker does not judge it */
 } W;
+
+static void
+w_keep(unsigned char *dst, size_t cap, size_t *dlen, const unsigned char *body, size_t len)
+{
+	if (len > cap) { W.trunc = 1; len = cap; }
+	memcpy(dst, body, len);
+	*dlen = len;
+}
 
 static void
 rec_hook(void *arg, const rm_record *r, const unsigned char *plain)
@@ -496,22 +529,36 @@ on_hs(void *arg, int dir, int type, const unsigned char *body, size_t len)
 		W.ske_hash = W.ske_sig = -1;
 		if (W.sh_version >= 0x0303 && len >= 4 + pl + 2) { W.ske_hash = body[4 + pl]; W.ske_sig = body[5 + pl]; }
 	}
+	if (dir == 1 && type == 13 && !W.have_cr) { W.have_cr = 1; w_keep(W.cr, sizeof W.cr, &W.cr_len, body, len); }
+	if (dir == 0 && type == 11 && !W.have_cc) { W.have_cc = 1; w_keep(W.cc, sizeof W.cc, &W.cc_len, body, len); }
+	if (dir == 0 && type == 16 && W.cke_len < 0) W.cke_len = (long)len;
+	if (dir == 0 && type == 15 && !W.have_cv) { W.have_cv = 1; w_keep(W.cv, sizeof W.cv, &W.cv_len, body, len); }
+}
+
+static void
+w_reset(void)
+{
+	memset(&W, 0, sizeof W);
+	W.cke_len = -1;
 }
 
 typedef struct {
 	int done, closed, err, curve, has_proto, xchains, xcerts, xends, xverdict;
+	int xbase;                  /* validator runs before this handshake (a context in its second life) */
 	unsigned ver, suite;
 	char proto[64];
 	unsigned char name[260]; size_t name_len;
+	int nxc; size_t xlen[8]; uint64_t xhash[8];   /* what the X.509 validator was fed: length and FNV-1a of each certificate */
 } ep_obs;
 
 static void
-observe(tp_ep *ep, ep_obs *o)
+observe_from(tp_ep *ep, ep_obs *o, int xbase)
 {
 	br_ssl_session_parameters sp;
 	const char *proto = br_ssl_engine_get_selected_protocol(ep->eng);
 	const char *sn = br_ssl_engine_get_server_name(ep->eng);
 	memset(o, 0, sizeof *o);
+	o->xbase = xbase;
 	o->err = br_ssl_engine_last_error(ep->eng);
 	o->done = tp_ep_ready(ep) && o->err == 0;
 	o->closed = tp_ep_closed(ep);
@@ -528,6 +575,17 @@ observe(tp_ep *ep, ep_obs *o)
 	o->xcerts = ep->xw ? ep->xw->n_start_cert : 0;
 	o->xends = ep->xw ? ep->xw->n_end_chain : 0;
 	o->xverdict = ep->xw && ep->xw->verdict_seen ? (int)ep->xw->last_verdict : -1;
+	if (ep->xw && ep->xw->n_start_chain > o->xbase) {
+		int i;
+		o->nxc = ep->xw->n_start_cert < 8 ? ep->xw->n_start_cert : 8;
+		for (i = 0; i < o->nxc; i ++) { o->xlen[i] = ep->xw->cert_len[i]; o->xhash[i] = ep->xw->cert_hash[i]; }
+	}
+}
+
+static void
+observe(tp_ep *ep, ep_obs *o)
+{
+	observe_from(ep, o, 0);
 }
 
 static void
@@ -537,8 +595,13 @@ js_endpoint(FILE *f, const char *name, const ep_obs *o, int reneg)
 		name, o->done, o->closed, o->err, o->ver, o->suite, o->curve);
 	if (o->has_proto) fprintf(f, "\"proto\":\"%s\",", o->proto); else fputs("\"proto\":null,", f);
 	js_hex(f, "name", o->name, o->name_len, 1);
-	fprintf(f, ",\"reneg\":%d,\"xchains\":%d,\"xcerts\":%d,\"xends\":%d,\"xverdict\":%d}",
-		reneg, o->xchains, o->xcerts, o->xends, o->xverdict);
+	fprintf(f, ",\"reneg\":%d,\"xchains\":%d,\"xnow\":%d,\"xcerts\":%d,\"xends\":%d,\"xverdict\":%d,\"xfed\":[",
+		reneg, o->xchains, o->xchains - o->xbase, o->xcerts, o->xends, o->xverdict);
+	{
+		int i;
+		for (i = 0; i < o->nxc; i ++) fprintf(f, "%s[%zu,\"%016llx\"]", i ? "," : "", o->xlen[i], (unsigned long long)o->xhash[i]);
+	}
+	fputs("]}", f);
 }
 
 static void
@@ -564,6 +627,10 @@ js_wire(FILE *f, rm_state *rm)
 	js_hex(f, "sh", rm->last_sh, rm->last_sh_len, rm->n_sh > 0 && rm->last_sh_len > 0);
 	if (W.have_ske) fprintf(f, ",\"ske\":[%u,%d,%d]", W.ske_curve, W.ske_hash, W.ske_sig);
 	else fputs(",\"ske\":null", f);
+	fputc(',', f); js_hex(f, "cr", W.cr, W.cr_len, W.have_cr);
+	fputc(',', f); js_hex(f, "ccert", W.cc, W.cc_len, W.have_cc);
+	fputc(',', f); js_hex(f, "cv", W.cv, W.cv_len, W.have_cv);
+	fprintf(f, ",\"cke_len\":%ld,\"hs_truncated\":%d", W.cke_len, W.trunc);
 	fputs(",\"alert_records\":[", f);
 	for (i = 0; i < W.n_arec; i ++) fprintf(f, "%s[%u,%u]", i ? "," : "", W.arec[i][0], W.arec[i][1]);
 	fprintf(f, "],\"mon_failed\":%d", rm->failed);
@@ -578,7 +645,7 @@ run_pair(long long seed, long idx, int kind, side *C, side *S, vf_rng *r)
 	tp_pair p;
 	tm_pairmon pm;
 	tp_cfg cc, sc;
-	int hs, rc, rs, renc = -1, rens = -1;
+	int hs, rc, rs, renc = -1, rens = -1, xb_c = 0, xb_s = 0;
 
 	side_to_cfg(C, 0, &cc, r);
 	side_to_cfg(S, 1, &sc, r);
@@ -608,12 +675,14 @@ run_pair(long long seed, long idx, int kind, side *C, side *S, vf_rng *r)
 		}
 		p.c2s.rd = p.c2s.wr = 0; p.s2c.rd = p.s2c.wr = 0;
 		cc.reuse_ctx = 1; sc.reuse_ctx = 1;
+		if (p.c.cc != NULL && p.c.xw != NULL) xb_c = p.c.xw->n_start_chain;
+		if (p.s.sc != NULL && p.s.xw != NULL) xb_s = p.s.xw->n_start_chain;
 		vf_stat("cases_with_previous_life", 1);
 	}
 	tm_pair_attach(&pm, &p);
 	pm.m.rm.on_hs = on_hs;
 	pm.m.rec_hook = rec_hook;
-	memset(&W, 0, sizeof W);
+	w_reset();
 	rc = tp_ep_start(&p.c, &cc);
 	rs = tp_ep_start(&p.s, &sc);
 	p.c.tx_key = pm.m.key[0]; p.c.rx_key = pm.m.key[1];
@@ -638,8 +707,8 @@ run_pair(long long seed, long idx, int kind, side *C, side *S, vf_rng *r)
 	/* renegotiation capability is measured last: a successful call starts a new handshake */
 	{
 		ep_obs oc, os;
-		observe(&p.c, &oc);
-		observe(&p.s, &os);
+		observe_from(&p.c, &oc, xb_c);
+		observe_from(&p.s, &os, xb_s);
 		if (rc) renc = tp_act_reneg(&p.c);
 		if (rs) rens = tp_act_reneg(&p.s);
 		fputc(',', LOG); js_endpoint(LOG, "oc", &oc, renc);
@@ -850,7 +919,7 @@ run_scripted(long long seed, long idx, side *S, vf_rng *r)
 	mon.check_app = 0;
 	mon.rm.on_hs = on_hs;
 	mon.rec_hook = rec_hook;
-	memset(&W, 0, sizeof W);
+	w_reset();
 	rs = tp_ep_start(&srv, &sc);
 	rec[0] = 22; rec[1] = (unsigned char)(rv >> 8); rec[2] = (unsigned char)rv;
 	rec[3] = (unsigned char)(h.n >> 8); rec[4] = (unsigned char)h.n;
@@ -938,7 +1007,8 @@ enum {
 	D_ALPN_OTHER, D_ALPN_TWO, D_ALPN_EMPTYLIST, D_ALPN_BADLEN, D_ALPN_UNSOL, D_ALPN_EMPTYNAME,
 	D_SIG_UNSOL, D_CURVES_UNSOL, D_POINTS_UNSOL, D_EXT_UNKNOWN, D_EXT_DUP,
 	D_BLOCKLEN, D_TRAIL, D_MSG_SHORT, D_MSG_LONG, D_RV2, D_NEXT_TYPE, D_NEXT_CCS,
-	D_RESUME_VER, D_RESUME_SUITE, D_RESUME_BAD_CCS, D_RESUME_NO_CCS, D_COUNT
+	D_RESUME_VER, D_RESUME_SUITE, D_RESUME_BAD_CCS, D_RESUME_NO_CCS,
+	D_CERT_EMPTY, D_CERT_LEN3, D_COUNT
 };
 static const char *defect_names[D_COUNT] = {
 	"ver-low", "ver-high", "record-version", "record-major",
@@ -948,7 +1018,8 @@ static const char *defect_names[D_COUNT] = {
 	"alpn-other", "alpn-two", "alpn-empty-list", "alpn-bad-length", "alpn-unsolicited", "alpn-empty-name",
 	"sig-unsolicited", "curves-unsolicited", "points-unsolicited", "ext-unknown", "ext-duplicate",
 	"block-length", "trailing", "msg-short", "msg-long", "record2-version", "next-type", "next-ccs",
-	"resume-version", "resume-suite", "resume-bad-ccs", "resume-no-ccs"
+	"resume-version", "resume-suite", "resume-bad-ccs", "resume-no-ccs",
+	"cert-empty-list", "cert-list-length"
 };
 
 typedef struct { unsigned type; unsigned char b[320]; size_t n; } xent;
@@ -1011,6 +1082,7 @@ defect_applicable(int d, const cli_facts *f)
 	case D_RESUME_VER: return f->has_sess && C->vmin < C->vmax;
 	case D_RESUME_SUITE: return f->has_sess && real_suites(C) > 1;
 	case D_RESUME_BAD_CCS: case D_RESUME_NO_CCS: return f->has_sess;
+	case D_CERT_EMPTY: case D_CERT_LEN3: return !f->has_sess;      /* a full handshake: the Certificate message is next */
 	default: return 1;
 	}
 }
@@ -1239,11 +1311,24 @@ build_server_hello(vf_rng *r, const cli_facts *f, const int *defs, int ndefs, bb
 	h2->n = 0;
 	*rv2 = *rv;
 	*type2 = 22;
-	second = vf_below(r, 100) < 50 || has[D_RV2] || has[D_NEXT_TYPE] || has[D_NEXT_CCS] || has[D_RESUME_BAD_CCS] || has[D_RESUME_NO_CCS];
+	second = vf_below(r, 100) < 50 || has[D_RV2] || has[D_NEXT_TYPE] || has[D_NEXT_CCS] || has[D_RESUME_BAD_CCS] || has[D_RESUME_NO_CCS]
+		|| has[D_CERT_EMPTY] || has[D_CERT_LEN3];
 	if (second && (has[D_NEXT_CCS] || (echo && !has[D_RESUME_NO_CCS] && !has[D_NEXT_TYPE]))) {
 		*type2 = 20;
 		b8(h2, 1);
 		if (has[D_RESUME_BAD_CCS]) { if (vf_below(r, 2)) h2->b[0] = (unsigned char)(vf_below(r, 2) ? 2 : 0); else b8(h2, 1); }
+	} else if (second && (has[D_CERT_EMPTY] || has[D_CERT_LEN3]) && !has[D_NEXT_TYPE]) {
+		/* a complete Certificate message of length 3: an empty certificate list, or a list length that the message cannot hold */
+		b8(h2, 11); b8(h2, 0); b16(h2, 3);
+		if (has[D_CERT_LEN3]) {
+			static const unsigned ll[] = { 1, 3, 5, 0x0100, 0x010000, 0xFFFFFF };
+			unsigned v = vf_below(r, 2) ? ll[vf_below(r, 6)] : 1 + vf_below(r, 0xFFFFFF);
+			b8(h2, v >> 16); b16(h2, v & 0xFFFF);
+		} else {
+			b8(h2, 0); b16(h2, 0);
+		}
+		/* sometimes the ServerHelloDone an honest server would send later follows at once */
+		if (vf_below(r, 4) == 0) { b8(h2, 14); b8(h2, 0); b16(h2, 0); }
 	} else if (second) {
 		const br_x509_certificate *xc = &tp_fx.ch_srv_rsa[0];
 		size_t dl = xc->data_len, take = vf_below(r, 300), cut;
@@ -1362,6 +1447,7 @@ run_scripted_server(long long seed, long idx, side *C, vf_rng *r)
 				if (f.sent_alpn && vf_below(r, 100) < 12) d = vf_below(r, 3) ? D_ALPN_OTHER : D_ALPN_TWO;
 				if (f.mfl_code && vf_below(r, 100) < 8) d = vf_below(r, 2) ? D_MFL_OTHER : D_MFL_LEN;
 				if (vf_below(r, 100) < 4) d = vf_below(r, 2) ? D_NEXT_TYPE : D_NEXT_CCS;
+				if (!f.has_sess && vf_below(r, 100) < 5) d = vf_below(r, 2) ? D_CERT_EMPTY : D_CERT_LEN3;
 				if (f.has_sess && vf_below(r, 100) < 40) {
 					static const int rd[] = { D_RESUME_VER, D_RESUME_SUITE, D_RESUME_BAD_CCS, D_RESUME_NO_CCS, D_RESUME_SUITE };
 					d = rd[vf_below(r, 5)];
@@ -1378,7 +1464,7 @@ run_scripted_server(long long seed, long idx, side *C, vf_rng *r)
 	mon.check_app = 0;
 	mon.rm.on_hs = on_hs;
 	mon.rec_hook = rec_hook;
-	memset(&W, 0, sizeof W);
+	w_reset();
 	rc = tp_ep_start(&cli, &cc);
 	h.n = h2.n = 0; rv = rv2 = 0;
 	if (rc) {
